@@ -1,8 +1,14 @@
-(* C06 -- Oversize and malformed input is refused totally.
-   Statements only; proofs in Proof/ReceiverTotal.v, Proof/ParserTotal.v. *)
-From Coq Require Import List NArith ZArith.
-From WV Require Import Lib.PyBytes Model.Receiver Proof.ReceiverTotal.
+(* C06 -- Oversize and malformed input is refused totally: error response, close, no crash.
+   Statements only; proofs in Proof/ReceiverTotal.v (chunked loop), Proof/ParserTotal.v
+   (HTTPRequestParser.received), Proof/ParserTotalChan.v (HTTPChannel.received) and
+   Proof/ParserTotalLimits.v (limits).  The error response itself (ErrorTask) is checked on
+   the real code by checks/C06.py (harness/limit_search.py, P3). *)
+From Coq Require Import List NArith ZArith Bool.
+From RecordUpdate Require Import RecordUpdate.
+From WV Require Import Lib.PyBytes Model.Receiver Model.Parser Model.ChanSeq
+  Proof.ReceiverTotal Proof.ParserTotal Proof.ParserTotalChan Proof.ParserTotalLimits.
 Import ListNotations.
+Local Open Scope N_scope.
 
 (* the chunked loop terminates on every state and every input *)
 Theorem C06_chunked_terminates : forall st s, chunked_received st s <> None.
@@ -19,3 +25,80 @@ Theorem C06_chunked_consumed : forall st s, wf_c st -> c_completed st = false ->
     /\ (c_completed st' = false -> n = Z.of_nat (length s)).
 Proof. exact chunked_received_spec. Qed.
 Print Assumptions C06_chunked_consumed.
+
+(* HTTPRequestParser.received is total on every well-formed open parser and every
+   non-empty read: never REscapes (an exception leaving received()), never
+   ROutOfFuel; it consumes between 1 and len(data) bytes and the parser is then
+   completed or well-formed again.  RUnmodelled = request-target with a bracketed
+   host, outside UrlSplit.v (a modelling gap, not an outcome of the code). *)
+Theorem C06_parser_total : forall a p data, wf_p a p -> data <> [] ->
+  received a p data = RUnmodelled \/
+  exists p' n, received a p data = ROk p' n /\ (1 <= n <= Z.of_nat (length data))%Z /\
+               (completed p' = true \/ wf_p a p').
+Proof. exact received_total. Qed.
+Print Assumptions C06_parser_total.
+
+(* HTTPChannel.received: no CEscapes, no COutOfFuel (every iteration of the
+   `while data` loop consumes at least one byte), for every channel state whose
+   request under construction is well-formed, and that is an invariant *)
+Theorem C06_total : forall a c data, wf_chan a c ->
+  chan_received a c data = CUnmodelled \/
+  exists c', chan_received a c data = COk c' /\ wf_chan a c'.
+Proof. exact chan_received_total. Qed.
+Print Assumptions C06_total.
+
+(* ... hence for every sequence of reads from a fresh connection *)
+Theorem C06_total_reads : forall a reads,
+  feed a chan_init reads = CUnmodelled \/
+  exists c', feed a chan_init reads = COk c' /\ wf_chan a c'.
+Proof. intros a reads. apply feed_total. apply wf_chan_init. Qed.
+Print Assumptions C06_total_reads.
+
+(* header limit: the message is completed with 431 exactly when the head seen so
+   far (position just after the first CRLFCRLF, or all bytes while there is none)
+   reaches max_request_header_size; boundary is >= *)
+Theorem C06_header_limit : forall a hp data p' n,
+  received a (P0 hp) data = ROk p' n ->
+  (max_request_header_size a <= head_pos (hp ++ data) <->
+   (completed p' = true /\ error p' = Some EHeaderTooLarge)).
+Proof. exact header_limit. Qed.
+Print Assumptions C06_header_limit.
+
+(* declared length: 413 at the end of the head only if 0 < Content-Length and
+   Content-Length >= max_request_body_size; a request that leaves the head phase
+   without error has Content-Length 0 or < max_request_body_size *)
+Theorem C06_body_limit_declared : forall a hp data p' n,
+  received a (P0 hp) data = ROk p' n ->
+  (error p' = Some EBodyTooLarge ->
+     completed p' = true /\ 0 < content_length p' /\ max_request_body_size a <= content_length p') /\
+  (error p' = None ->
+     content_length p' = 0 \/ content_length p' < max_request_body_size a).
+Proof. exact body_limit_declared. Qed.
+Print Assumptions C06_body_limit_declared.
+
+(* running count (chunked wire bytes, or fixed body bytes): 413 exactly when the
+   count reaches max_request_body_size *)
+Theorem C06_body_limit_running : forall a p br data p' n,
+  wf_p a p -> body p = Some br -> received a p data = ROk p' n ->
+  body_bytes_received p' = (body_bytes_received p + n)%Z /\
+  ((Z.of_N (max_request_body_size a) <= body_bytes_received p + n)%Z <->
+     (completed p' = true /\ error p' = Some EBodyTooLarge)).
+Proof. exact body_limit_running. Qed.
+Print Assumptions C06_body_limit_running.
+
+(* a closing channel consumes nothing (the close decision itself is C11's) *)
+Theorem C06_stop : forall a c data,
+  will_close c || close_when_flushed c = true -> chan_received a c data = COk c.
+Proof. exact chan_stop. Qed.
+Print Assumptions C06_stop.
+
+(* memory: an open request holds less than max_request_header_size head bytes and,
+   in a chunked body, control line + chunk terminator + trailer carry is bounded by
+   the wire bytes counted, which stay below max_request_body_size *)
+Theorem C06_carry_bounded : forall a p, wf_p a p ->
+  (header_plus p = [] \/ lenN (header_plus p) < max_request_header_size a) /\
+  (forall c, body p = Some (BChunked c) ->
+     (Z.of_nat (length (control_line c) + length (chunk_end c) + length (trailer c)) <= body_bytes_received p)%Z /\
+     (body_bytes_received p = 0 \/ body_bytes_received p < Z.of_N (max_request_body_size a))%Z).
+Proof. exact carry_bounded. Qed.
+Print Assumptions C06_carry_bounded.
